@@ -840,7 +840,7 @@ CKEYWORDS = {'auto', 'break', 'case', 'char', 'const', 'continue', 'default', 'd
 # environment table: functions with built-in meaning. value = C body template or special marker
 ENV_NOOP_VOID = {
     '_ZNSt8ios_base4InitC1Ev', '_ZNSt8ios_base4InitD1Ev', '__cxa_guard_abort',
-    '_ZNSt6localeD1Ev', '_ZNSt8ios_baseD2Ev',
+    '_ZNSt6localeD1Ev', '_ZNSt8ios_baseD2Ev', '_ZNSaIcEC2Ev', '_ZNSaIcED2Ev', '_ZNSaIcEC1Ev', '_ZNSaIcED1Ev',
 }
 ENV_RET0 = {'__cxa_atexit', '__cxa_thread_atexit'}
 ENV_ABORT = {'abort', 'exit', '_ZSt9terminatev', '__cxa_pure_virtual', '_ZSt17__throw_bad_allocv',
@@ -851,7 +851,7 @@ ENV_ABORT = {'abort', 'exit', '_ZSt9terminatev', '__cxa_pure_virtual', '_ZSt17__
              '__cxa_rethrow', '_ZSt20__throw_system_errori'}
 ENV_NEW = {'_Znwm', '_Znam'}
 ENV_DELETE = {'_ZdlPv', '_ZdaPv', '_ZdlPvm', '_ZdaPvm'}
-ENV_LIBC = {'malloc', 'free', 'memcpy', 'memset', 'memmove', 'calloc', 'strlen', 'strcmp', 'memcmp'}
+ENV_LIBC = {'malloc', 'free', 'memcpy', 'memset', 'memmove', 'calloc', 'strlen', 'strcmp', 'memcmp', 'bcmp'}
 # ostream inserters etc: return first argument
 ENV_RETARG0 = re.compile(r'^(_ZStlsISt11char_traitsIcEERSt13basic_ostreamIcT_ES5_|_ZNSolsE|_ZNSo3putEc|_ZNSo5flushEv|'
                          r'_ZSt4endlIcSt11char_traitsIcEERSt13basic_ostreamIT_T0_ES6_|_ZNSo9_M_insertI|'
@@ -1377,7 +1377,12 @@ class Emitter:
         out.extend(protos)
         for n, ct in sorted(self.nd_globals.items()):
             out.append('%s %s; /* last nondet value of this type: read by the trace parser */' % (ct, n))
-        # globals: declare all first (extern-style tentative definitions are not enough for structs w/ init)
+        # globals: forward-declare all (initialisers may reference later globals, e.g. vtable -> typeinfo), then define
+        for name in self.used_globals:
+            g = self.m.globals[name]
+            if name == 'symx_terminated':
+                continue
+            out.append('extern %s%s %s;' % ('__thread ' if g['tls'] else '', self.cty(g['ty']), self.gname(name)))
         out.extend(rendered)
         out.extend(bodies)
         # ctor runner
@@ -1475,10 +1480,15 @@ class Emitter:
             return sig + ';', sigd + '{ return 0; }'
         if name == '__cxa_guard_acquire':
             return sig + ';', sigd + '{ return *(uint8_t*)a0 == 0; }'
+        if name == '_ZNSt7__cxx1112basic_stringIcSt11char_traitsIcESaIcEE9_M_createERmm':
+            # std::string::_M_create(size_type& capacity, size_type old): heap buffer of capacity+1 chars
+            return sig + ';', sigd + '{ void *p = malloc(*a1 + 1); __CPROVER_assume(p != 0); return (%s)p; }' % self.cty(f.ret)
         if name == '__cxa_guard_release':
             return sig + ';', sigd + '{ *(uint8_t*)a0 = 1; }'
         if name in ENV_ABORT:
-            return None, None  # handled at call sites
+            if name in ('abort', 'exit'):
+                return None, None  # libc prototypes; calls are handled at call sites
+            return sig + ';', sigd + '{ SYMX_ON_ABORT; }'  # address may be taken (vtable slots)
         if name in ENV_NEW or name in ENV_DELETE or name in ENV_LIBC:
             return None, None  # handled at call sites
         if name == '__assert_fail':
@@ -1502,10 +1512,13 @@ class Emitter:
         # typed allocations: CBMC gives a dynamic object the type T[n] only when the size expression carries sizeof(T);
         # an untyped malloc(n) becomes a byte array and every struct access a byte_extract cascade (orders of magnitude slower)
         self.alloc_ty = {}
+        self.cast_src = {}   # local defined by a pointer bitcast -> (source pointer type, source value)
         for lab, ins_list in f.blocks:
             for x in ins_list:
                 if x['op'] == 'bitcast' and x['a'][0] == 'local' and x['ty'][0] == 'ptr' and x['a'][1] not in self.alloc_ty:
                     self.alloc_ty[x['a'][1]] = x['ty'][1]
+                if x['op'] == 'bitcast' and x['ty'][0] == 'ptr' and x['sty'][0] == 'ptr' and x['dst'] is not None:
+                    self.cast_src[x['dst']] = (x['sty'], x['a'])
         labels = {lab: 'L' + cid(lab) for lab, _ in f.blocks}
         # collect phis per block
         phis = {}
@@ -1834,9 +1847,10 @@ class Emitter:
                         decl[n] = self.cty(rty)
                         return '%s = (%s)malloc(%s); __CPROVER_assume(%s != 0);' % (n, self.cty(rty), self.alloc_size(x, arg(0)), n)
                     cargs = ', '.join(arg(i) for i in range(len(args)))
+                    cname = 'memcmp' if name == 'bcmp' else name
                     if rty == VOID or x['dst'] is None:
-                        return '%s(%s);' % (name, cargs)
-                    return self.setv(x, decl, '(%s)%s(%s)' % (self.cty(rty), name, cargs))
+                        return '%s(%s);' % (cname, cargs)
+                    return self.setv(x, decl, '(%s)%s(%s)' % (self.cty(rty), cname, cargs))
                 if name in ('sqrt', 'log', 'cos', 'sin', 'pow', 'floor', 'ceil', 'rint', 'fabs', 'exp', 'nextafter',
                             'fmod', 'round', 'trunc', 'ldexp'):
                     self.use_func(name)
@@ -1917,10 +1931,18 @@ class Emitter:
             return ''
         if name.startswith('llvm.memset'):
             return 'memset(%s, %s, %s);' % (arg(0), arg(1), arg(2))
-        if name.startswith('llvm.memcpy'):
-            return 'memcpy(%s, %s, %s);' % (arg(0), arg(1), arg(2))
-        if name.startswith('llvm.memmove'):
-            return 'memmove(%s, %s, %s);' % (arg(0), arg(1), arg(2))
+        if name.startswith('llvm.memcpy') or name.startswith('llvm.memmove'):
+            # a whole-object copy between two T* (struct assignment in the source) stays a typed assignment: a byte-wise
+            # memcpy makes every later field read a byte_extract that CBMC's constant propagation cannot see through
+            a0, a1, a2 = x['args'][0][1], x['args'][1][1], x['args'][2][1]
+            if a0[0] == 'local' and a1[0] == 'local' and a2[0] == 'int' and a0[1] in self.cast_src and a1[1] in self.cast_src:
+                (t0, v0), (t1, v1) = self.cast_src[a0[1]], self.cast_src[a1[1]]
+                for T in (t0, t1):
+                    if self.m.resolve(T[1])[0] == 'struct' and self.tsize_align(T[1])[0] == a2[1]:
+                        C = self.cty(T)
+                        return '*(%s)%s = *(%s)%s;' % (C, self.val(t0, v0), C, self.val(t1, v1))
+            fn = 'memcpy' if name.startswith('llvm.memcpy') else 'memmove'
+            return '%s(%s, %s, %s);' % (fn, arg(0), arg(1), arg(2))
         if name.startswith('llvm.fmuladd') or name.startswith('llvm.fma.'):
             return ret('SYMX_FADD(SYMX_FMUL(%s, %s), %s)' % (arg(0), arg(1), arg(2)))
         if name.startswith('llvm.fabs'):
@@ -1937,6 +1959,15 @@ class Emitter:
             a, b = arg(0), arg(1)
             pred = {'smax': 'sgt', 'smin': 'slt', 'umax': 'ugt', 'umin': 'ult'}[m.group(1)]
             return ret('(%s ? %s : %s)' % (self.icmp_expr(pred, ty, a, b), a, b))
+        m = re.match(r'llvm\.(u|s)(add|sub)\.sat\.i(\d+)', name)
+        if m and m.group(1) == 'u':
+            w = int(m.group(3))
+            a, b = arg(0), arg(1)
+            W = self.wide(w)
+            if m.group(2) == 'sub':
+                return ret('((%s)(%s) > (%s)(%s) ? %s : %s)' % (W, a, W, b, self.mask('(%s)(%s) - (%s)(%s)' % (W, a, W, b), w), self.val(I(w), ('int', 0))))
+            s_ = self.mask('(%s)(%s) + (%s)(%s)' % (W, a, W, b), w)
+            return ret('((%s)%s < (%s)(%s) ? %s : %s)' % (W, s_, W, a, self.val(I(w), ('int', (1 << w) - 1)), s_))
         m = re.match(r'llvm\.abs\.i(\d+)', name)
         if m:
             w = int(m.group(1))
